@@ -763,6 +763,7 @@ type Frame struct {
 	nonnil map[string][]*ssa.BasicBlock
 	inheritedNonNil map[string]bool
 	locals map[string]ssa.Value
+	nameCands map[string][]ssa.Value
 	curBlock *ssa.BasicBlock
 	freeVals map[string]*Val
 	autoBounds map[*ssa.BasicBlock]func(*State, map[*ssa.Phi]*Val, *ssa.BasicBlock, string)
